@@ -11,12 +11,12 @@ VERIF = os.path.dirname(os.path.dirname(os.path.abspath(__file__)))
 REPO = os.environ.get('PYVC_REPO', '/repo')
 
 PROP_MODULES = {
-    'C04': ['contracts.c04', 'contracts.c06', 'contracts.c08', 'contracts.c09', 'contracts.c10', 'contracts.c07b'], 'C05': ['contracts.c05', 'contracts.c09', 'contracts.c06', 'contracts.c07', 'contracts.c10', 'contracts.c13', 'contracts.c07b', 'contracts.c06b'], 'C06': ['contracts.c06', 'contracts.c06b', 'contracts.c10', 'contracts.c13', 'contracts.c12'],
+    'C04': ['contracts.c04', 'contracts.c06', 'contracts.c08', 'contracts.c09', 'contracts.c10', 'contracts.c07b', 'contracts.c18c'], 'C05': ['contracts.c05', 'contracts.c09', 'contracts.c06', 'contracts.c07', 'contracts.c10', 'contracts.c13', 'contracts.c07b', 'contracts.c06b'], 'C06': ['contracts.c06', 'contracts.c06b', 'contracts.c10', 'contracts.c13', 'contracts.c12'],
     'C07': ['contracts.c07', 'contracts.c06', 'contracts.c15', 'contracts.c14', 'contracts.c07b', 'contracts.c06b'], 'C08': ['contracts.c08', 'contracts.c09', 'contracts.c08b'], 'C09': ['contracts.c09', 'contracts.c09c', 'contracts.c08b', 'contracts.c11'],
     'C10': ['contracts.c10', 'contracts.c12'], 'C11': ['contracts.c11', 'contracts.c11b', 'contracts.c11c'], 'C12': ['contracts.c12', 'contracts.c10', 'contracts.c12b'],
     'C13': ['contracts.c13'], 'C14': ['contracts.c14', 'contracts.c11b'], 'C15': ['contracts.c15', 'contracts.c06', 'contracts.c11b', 'contracts.c15b', 'contracts.c07b'],
     'C16': ['contracts.c16', 'contracts.c11b', 'contracts.c16b'], 'C17': ['contracts.c17', 'contracts.c13'], 'C18': ['contracts.c18', 'contracts.c04', 'contracts.c18b', 'contracts.c18c'],
-    'C19': ['contracts.c19', 'contracts.c18', 'contracts.c18b', 'contracts.c19b', 'contracts.c12b', 'contracts.c19c'], 'C20': ['contracts.c20'],
+    'C19': ['contracts.c19', 'contracts.c18', 'contracts.c18b', 'contracts.c19b', 'contracts.c12b', 'contracts.c19c', 'contracts.c18c'], 'C20': ['contracts.c20', 'contracts.c10'],
 }
 
 DROPPED = ['docstrings', 'type annotations', 'logger.* / get_logger() calls (no-ops)',
